@@ -100,10 +100,12 @@ let oracle_q n ops obs =
 
 (* ================================================================= optional *)
 let o_parse_op s = match sp '.' s with
-  | [("va" | "vm"); i; v] -> OValAssign (ni (ios i), str_of_hex v)
-  | [("vc" | "vr"); i; v] -> OValCtor (ni (ios i), str_of_hex v)
-  | ["as"; i; j] -> OAssign (ni (ios i), ni (ios j))
-  | ["cc"; i; j] -> OCopyCtor (ni (ios i), ni (ios j))
+  (* the source's value category (const lvalue / non-const lvalue / rvalue) selects different overload-resolution paths in
+     the C++; the model has ONE function per operation: va vn vm, vc vq vr, as an ar, cc cn cr *)
+  | [("va" | "vn" | "vm"); i; v] -> OValAssign (ni (ios i), str_of_hex v)
+  | [("vc" | "vq" | "vr"); i; v] -> OValCtor (ni (ios i), str_of_hex v)
+  | [("as" | "an" | "ar"); i; j] -> OAssign (ni (ios i), ni (ios j))
+  | [("cc" | "cn" | "cr"); i; j] -> OCopyCtor (ni (ios i), ni (ios j))
   | ["ae"; i] -> OAssignEmpty (ni (ios i))
   | ["dc"; i] -> ODefaultCtor (ni (ios i))
   | ["rd"; i] -> ORead (ni (ios i))
@@ -184,18 +186,27 @@ let d_fun lib s x = match lib, s with
   | 1, 0 -> x + 200 | 1, 1 -> 3 * x + 2
   | 2, 3 -> x + 900
   | _ -> -1
-let d_parse_op s = match sp '.' s with
-  | ["op"; i; f] -> DOpen (ni (ios i), ni (ios f))
-  | ["ld"; i; j; s] -> DLoad (ni (ios i), ni (ios j), ni (ios s))
-  | ["gt"; i; j] -> DGet (ni (ios i), ni (ios j))
-  | ["cp"; i; j] -> DCopy (ni (ios i), ni (ios j))
-  | ["mv"; i; j] -> DMove (ni (ios i), ni (ios j))
-  | ["as"; i; j] -> DAssign (ni (ios i), ni (ios j))
-  | ["ma"; i; j] -> DMoveAssign (ni (ios i), ni (ios j))
-  | ["sw"; i; j] -> DSwap (ni (ios i), ni (ios j))
-  | ["dr"; i] -> DDrop (ni (ios i))
-  | ["cl"; i; x] -> DCall (ni (ios i), ni (ios x))
-  | ["st"; f] -> DStale (ni (ios f))
+(* wire operations of a dl case: a model operation (quiet = the handler does not read the diagnostic at once), a scoped
+   open+load with the dl object INSIDE the try block (expands to DOpen t f; DLoad i t s; DDrop t on a scratch slot t), or a
+   later read of the k-th caught exception *)
+type dwire = WOp of dop * bool | WScoped of nat * nat * nat * nat * bool | WRead of nat
+let d_parse_wire s = match sp '.' s with
+  | ["op"; i; f] -> WOp (DOpen (ni (ios i), ni (ios f)), false)
+  | ["oq"; i; f] -> WOp (DOpen (ni (ios i), ni (ios f)), true)
+  | ["ld"; i; j; s] -> WOp (DLoad (ni (ios i), ni (ios j), ni (ios s)), false)
+  | ["lq"; i; j; s] -> WOp (DLoad (ni (ios i), ni (ios j), ni (ios s)), true)
+  | ["sc"; i; t; f; s] -> WScoped (ni (ios i), ni (ios t), ni (ios f), ni (ios s), false)
+  | ["sq"; i; t; f; s] -> WScoped (ni (ios i), ni (ios t), ni (ios f), ni (ios s), true)
+  | ["rx"; k] -> WRead (ni (ios k))
+  | ["gt"; i; j] -> WOp (DGet (ni (ios i), ni (ios j)), false)
+  | ["cp"; i; j] -> WOp (DCopy (ni (ios i), ni (ios j)), false)
+  | ["mv"; i; j] -> WOp (DMove (ni (ios i), ni (ios j)), false)
+  | ["as"; i; j] -> WOp (DAssign (ni (ios i), ni (ios j)), false)
+  | ["ma"; i; j] -> WOp (DMoveAssign (ni (ios i), ni (ios j)), false)
+  | ["sw"; i; j] -> WOp (DSwap (ni (ios i), ni (ios j)), false)
+  | ["dr"; i] -> WOp (DDrop (ni (ios i)), false)
+  | ["cl"; i; x] -> WOp (DCall (ni (ios i), ni (ios x)), false)
+  | ["st"; f] -> WOp (DStale (ni (ios f)), false)
   | _ -> failwith "dop"
 (* the diagnostic the loader produces for the failure this operation provokes *)
 let d_expected_diag st o = match o with
@@ -204,9 +215,9 @@ let d_expected_diag st o = match o with
       | Some (OLib (Some h)) -> (match nth_error st.hs h with Some r -> Some (DgSym (r.hlib, s)) | None -> None)
       | _ -> None)
   | _ -> None
-let d_obs_res st o = function
+let d_obs_res ?(quiet = false) st o = function
   | DOk -> "ok" | DSkip -> "skip"
-  | DRaise dle -> if dle <> None && dle = d_expected_diag st o then "raise:1" else "raise:0"
+  | DRaise dle -> if quiet then "raise:-" else if dle <> None && dle = d_expected_diag st o then "raise:1" else "raise:0"
   | DCallOk (lib, s, x) -> "call:" ^ string_of_int (d_fun (inn lib) (inn s) (inn x))
   | DUnmapped -> "unmapped"
 (* an owner is shown as its kind and the handle its shared_ptr refers to, "~" when it is null (moved from) *)
@@ -217,12 +228,35 @@ let d_obs_state st =
                               | Some (OSym (h, _, _)) -> "S" ^ d_obs_h h | Some (ORaw h) -> "R" ^ d_obs_h h) st.slots in
   String.concat "|" [field_of_list hsl; field_of_list sl; "nc=" ^ string_of_int (inn st.null_closes)]
 let model_d n ops =
-  let st = ref (d_init (ni (ios n))) in
-  let parts = List.map (fun o ->
-      let (st', r) = d_step d_world !st o in
-      let s = d_obs_res !st o r in
-      st := st'; s ^ "|" ^ d_obs_state !st) (List.map d_parse_op (list_of_field ops)) in
-  String.concat ";" (parts @ ["fin|" ^ d_obs_state (d_finish !st)])
+  let xs = ref (x_init (ni (ios n))) in
+  let expected = ref [] in     (* per caught exception: the diagnostic the loader produced for that failure *)
+  let run_op o quiet =
+    let before = !xs.xd in
+    let (xs', r) = x_step d_world !xs (XOp o) in
+    xs := xs';
+    (match r with
+     | XRes (DRaise _ as rr) -> expected := !expected @ [d_expected_diag before o]; d_obs_res ~quiet before o rr
+     | XRes rr -> d_obs_res before o rr
+     | XDiag _ -> "?") in
+  let parts = List.map (fun wop ->
+      let s = (match wop with
+        | WOp (o, quiet) -> run_op o quiet
+        | WScoped (i, t, f, sy, quiet) ->
+            if not (slot_empty !xs.xd i && slot_empty !xs.xd t && i <> t) then "skip"
+            else begin
+              let r1 = run_op (DOpen (t, f)) quiet in
+              if r1 <> "ok" then r1
+              else begin
+                let r2 = run_op (DLoad (i, t, sy)) quiet in
+                ignore (run_op (DDrop t) false); r2
+              end
+            end
+        | WRead k ->
+            (match snd (x_step d_world !xs (XRead k)) with
+             | XDiag (Some dle) -> "diag:" ^ (if dle <> None && dle = List.nth !expected (inn k) then "1" else "0") ^ "11"
+             | _ -> "skip")) in
+      s ^ "|" ^ d_obs_state !xs.xd) (List.map d_parse_wire (list_of_field ops)) in
+  String.concat ";" (parts @ ["fin|" ^ d_obs_state (d_finish !xs.xd)])
 (* observation -> dstate as far as observable (use counts are not; which function a symbol object holds is not) *)
 let d_parse_step s = match sp '|' s with
   | [r; hsl; sl; nc] ->
@@ -245,13 +279,14 @@ let d_others_same prev cur except =
   List.length prev = List.length cur &&
   List.for_all (fun k -> List.mem k except || List.nth prev k = List.nth cur k) (List.init (List.length prev) (fun k -> k))
 let oracle_d n ops obs =
-  let ops = List.map d_parse_op (list_of_field ops) in
+  let ops = List.map d_parse_wire (list_of_field ops) in
   let steps = List.map d_parse_step (sp ';' obs) in
   if List.length steps <> List.length ops + 1 then false else begin
     let prev = ref (d_init (ni (ios n))) in
     (* which function (symbol name) each symbol slot holds is the oracle's own bookkeeping of the case: it follows the
        value semantics the property demands of copies and assignments *)
     let names = Array.make (ios n) (-1) in
+    let ncaught = ref 0 in      (* exceptions the implementation raised so far *)
     let ok = ref true in
     List.iteri (fun k (r, st) ->
         let same_hs = st.hs = !prev.hs in
@@ -259,19 +294,40 @@ let oracle_d n ops obs =
         let unchanged = same_hs && st.slots = !prev.slots in
         let good =
           if k < List.length ops then begin
-            let o = List.nth ops k in
+            let wop = List.nth ops k in
+            let quiet = (match wop with WOp (_, q) -> q | WScoped (_, _, _, _, q) -> q | WRead _ -> false) in
+            let raised = if quiet then "raise:-" else "raise:1" in   (* the dl exception, with the diagnostic when read at once *)
+            if String.length r >= 5 && String.sub r 0 5 = "raise" then incr ncaught;
             let own i = slot_owner !prev i in
             let now i = nth_error st.slots i in
             (* every handle: closed at most once, and closed exactly when no owner object is left; dlclose(NULL) never *)
             d_state_ok st && d_hs_extends !prev.hs st.hs && List.length st.slots = List.length !prev.slots
-            && (match o with
+            && (match wop with
+             | WRead kx ->
+                 (* a caught exception carries the diagnostic of ITS failure and what() names the file/symbol, the same
+                    text whenever it is read *)
+                 (if inn kx < !ncaught then r = "diag:111" else r = "skip") && unchanged
+             | WScoped (i, t, f, sy, _) ->
+                 if not (slot_empty !prev i && slot_empty !prev t && i <> t) then r = "skip" && unchanged
+                 else if not (d_world.lib_exists f) then r = raised && unchanged
+                 else if d_world.sym_exists f sy then
+                   (* the symbol outlives the scoped library object: one new handle, still mapped, owned by the symbol *)
+                   (names.(inn i) <- inn sy;
+                    r = "ok" && List.length st.hs = List.length !prev.hs + 1
+                    && now i = Some (Some (OSym (Some (ni (List.length !prev.hs)), ni 0, ni 0)))
+                    && d_others_same !prev.slots st.slots [inn i])
+                 else
+                   (* failed look-up inside the scope: the exception, and the library opened in the scope is closed again *)
+                   r = raised && List.length st.hs = List.length !prev.hs + 1 && st.slots = !prev.slots
+             | WOp (o, _) ->
+               (match o with
                 | DOpen (i, f) when slot_empty !prev i ->
                     if d_world.lib_exists f then
                       r = "ok" && List.length st.hs = List.length !prev.hs + 1
                       && (match now i with Some (Some (OLib (Some h))) -> inn h = List.length !prev.hs | _ -> false)
                       && d_others_same !prev.slots st.slots [inn i]
                     else (* failed open: dl exception with the diagnostic, nothing created, nothing closed *)
-                      r = "raise:1" && unchanged
+                      r = raised && unchanged
                 | DLoad (i, j, s) when slot_empty !prev i && (match own j with Some (OLib (Some _)) -> true | _ -> false) ->
                     let h = (match own j with Some (OLib (Some h)) -> h | _ -> ni 0) in
                     let lib = (match nth_error !prev.hs h with Some rr -> rr.hlib | None -> ni 99) in
@@ -279,7 +335,7 @@ let oracle_d n ops obs =
                       (names.(inn i) <- inn s;
                        r = "ok" && same_hs && now i = Some (Some (OSym (Some h, ni 0, ni 0))) && d_others_same !prev.slots st.slots [inn i])
                     else (* failed look-up: dl exception with the diagnostic, the library and every owner stay as they were *)
-                      r = "raise:1" && unchanged
+                      r = raised && unchanged
                 | DCall (i, x) ->
                     (match own i with
                      | Some (OSym (Some h, _, _)) ->
@@ -318,7 +374,7 @@ let oracle_d n ops obs =
                 | DDrop i when own i <> None ->
                     r = "ok" && len_hs && now i = Some None && d_others_same !prev.slots st.slots [inn i]
                 | DStale _ -> r = "ok" && unchanged
-                | _ -> r = "skip" && unchanged)
+                | _ -> r = "skip" && unchanged))
           end else
             (* complete history: every handle ever opened has been closed exactly once *)
             r = "fin" && d_state_ok st && List.length st.hs = List.length !prev.hs && d_hs_extends !prev.hs st.hs
